@@ -5,6 +5,7 @@ import ShellOp.Proofs.MetricsSim
 import ShellOp.Proofs.MetricsSimU
 import ShellOp.Proofs.MetricsKey
 import ShellOp.Proofs.MetricsText
+import ShellOp.Model.MetricsNames
 /-!
 # C16 — hook metrics: validated as a batch; grouped metrics replaced, not accumulated
 
@@ -919,5 +920,173 @@ example : Reaches (exampleFile.take 30) ((exampleFile.take 30).drop 20) ∧
     decodeNext ((exampleFile.take 30).drop 20) = .err :=
   ⟨.doc _ (.obj [("name".toList, .str "m".toList), ("set".toList, .num)]) _ _ rfl (by decide) rfl
     (.refl _), rfl⟩
+
+/-! ## Sixth wave: the names of a grouped metric, and what the reader may write to
+
+The `op` lines (and the scrape) identify a metric by its RESOLVED name; `Model/MetricsNames` keeps apart
+the three places where `GetOrCreate*Collector` uses a name. -/
+
+section names
+open ShellOp.Metrics.Names
+
+/-- Tie T1 for the vault's names: lookup key, registered name and store key of both get-or-create
+functions are the ONE variable `metricName := v.resolveMetricNameFunc(name)`; `CounterAdd` / `GaugeSet`
+hand over a resolved name. Regenerated from the source on every run. -/
+theorem vault_names_shape : Facts.c16VaultNames =
+    ["GetOrCreateCounterCollector:", "metricName := v.resolveMetricNameFunc(name)", "v.collectors[metricName]",
+     "metric.NewConstCounterCollector(metricName, _)", "v.collectors[metricName]",
+     "GetOrCreateGaugeCollector:", "metricName := v.resolveMetricNameFunc(name)", "v.collectors[metricName]",
+     "metric.NewConstGaugeCollector(metricName, _)", "v.collectors[metricName]",
+     "CounterAdd:", "metricName := v.resolveMetricNameFunc(name)", "v.GetOrCreateCounterCollector(metricName, _)",
+     "GaugeSet:", "metricName := v.resolveMetricNameFunc(name)", "v.GetOrCreateGaugeCollector(metricName, _)"] := by
+  decide
+
+theorem lookup_append_new {α : Type} (l : List (Nat × α)) (k k' : Nat) (a : α) :
+    (l ++ [(k', a)]).lookup k = match l.lookup k with
+      | some x => some x
+      | none => if k = k' then some a else none := by
+  induction l with
+  | nil =>
+    by_cases h : k = k'
+    · subst h; simp [List.lookup]
+    · have : (k == k') = false := by simpa using h
+      simp [List.lookup, this, h]
+  | cons hd tl ih =>
+    obtain ⟨k0, a0⟩ := hd
+    by_cases h : k = k0
+    · subst h; simp [List.lookup]
+    · have : (k == k0) = false := by simpa using h
+      simp [List.lookup, this, ih]
+
+/-- **every spelling of a metric obtains its collector**: for every resolution function, every vault,
+once a use of the written name `n` with type `f` went through, a use of ANY written name `n'` that
+resolves to the same name, with the same type, goes through as well and changes nothing (it finds the
+collector: no second registration, nothing dropped) — whatever the prefix, whatever the history. -/
+theorem every_spelling_obtains (resolve : Nat → Nat) (v v' : Vault) (n n' : Nat) (f : Fam)
+    (h : getOrCreateResolved resolve v n f = some v') (hn : resolve n' = resolve n) :
+    getOrCreateResolved resolve v' n' f = some v' := by
+  unfold getOrCreateResolved getOrCreate at h ⊢
+  rw [hn]
+  cases hl : v.colls.lookup (resolve n) with
+  | some f' =>
+    rw [hl] at h
+    by_cases hf : f' = f
+    · simp only [hf, if_true] at h
+      cases h
+      rw [hl]; simp [hf]
+    · simp [hf] at h
+  | none =>
+    rw [hl] at h
+    by_cases hr : v.reg.any (· == resolve n) = true
+    · rw [if_pos hr] at h; cases h
+    · rw [if_neg hr] at h
+      cases h
+      simp only [lookup_append_new, hl]
+      simp
+
+/-- … and so do all later uses, in any number, of any spellings of that name. -/
+theorem later_uses_all_served (resolve : Nat → Nat) (v v' : Vault) (n : Nat) (f : Fam)
+    (h : getOrCreateResolved resolve v n f = some v') (uses : List (Nat × Fam))
+    (hu : ∀ u ∈ uses, resolve u.1 = resolve n ∧ u.2 = f) :
+    useAll resolve resolve resolve v' uses = some v' := by
+  induction uses with
+  | nil => rfl
+  | cons u rest ih =>
+    obtain ⟨n', f'⟩ := u
+    have h1 := hu (n', f') (by simp)
+    obtain ⟨hn, hf⟩ := h1
+    simp only at hn hf
+    subst hf
+    have := every_spelling_obtains resolve v v' n n' f' h hn
+    unfold getOrCreateResolved at this
+    simp only [useAll, this, Option.bind]
+    exact ih (fun u hm => hu u (by simp [hm]))
+
+/-- non-vacuity: prefix resolution `1 ↦ 2` (`{PREFIX}x ↦ x`), both spellings, twice. -/
+example : let r : Nat → Nat := fun n => if n = 1 then 2 else n
+    ∃ v', getOrCreateResolved r {} 1 .gauge = some v' ∧
+      useAll r r r v' [(1, .gauge), (2, .gauge), (1, .gauge)] = some v' := by
+  refine ⟨{ colls := [(2, .gauge)], reg := [2] }, by decide, by decide⟩
+
+/-- What the one-name model of `Model/Metrics` (`getOrCreateColl`, names = resolved names) says about the
+vault is what the three-name model says with all three the identity: the model's "registered" is
+membership in the list of vec names and collector keys. -/
+def ofState (st : State) : Vault :=
+  { colls := st.colls, reg := st.vecs.map (·.name) ++ st.colls.map (·.1) }
+
+theorem getOrCreateColl_names (st : State) (n : Nat) (f : Fam) :
+    (getOrCreateColl st n f).map ofState = getOrCreate id id id (ofState st) n f := by
+  have hreg : (ofState st).reg.any (· == n) = st.registered n := by
+    simp [ofState, State.registered, List.any_append, List.any_map, Function.comp_def]
+  unfold getOrCreateColl getOrCreate
+  simp only [id]
+  show _ = match st.colls.lookup n with
+    | some f' => if f' = f then some (ofState st) else none
+    | none => if (ofState st).reg.any (· == n) then none
+        else some { colls := (ofState st).colls ++ [(n, f)], reg := (ofState st).reg ++ [n] }
+  rw [hreg]
+  cases st.colls.lookup n with
+  | some f' => by_cases hf : f' = f <;> simp [hf]
+  | none =>
+    cases st.registered n <;> simp [ofState]
+
+/-- Witness for the excluded shape (NOT the code): the new collector stored under the WRITTEN name while
+lookup and registration use the resolved one — the second use of `{PREFIX}x` misses the cache, the
+second registration of `x` fails, the operation is dropped. -/
+theorem raw_store_key_witness : let r : Nat → Nat := fun n => if n = 1 then 2 else n
+    (getOrCreate r r id {} 1 .gauge).isSome = true ∧
+    (getOrCreate r r id {} 1 .gauge).bind (fun v => getOrCreate r r id v 1 .gauge) = none := by
+  decide
+
+/-- Tie T1 for the ungrouped vecs (repaired code, `fix:` d5e10a6): `Gauge` / `Counter` / `Histogram` look
+the vec up, and `Register…` double-checks, names and stores it, under the ONE resolved name — the same
+three-uses-one-name shape as the vault, so `every_spelling_obtains` / `later_uses_all_served` speak
+about the vecs as well (a vec is "obtained" = found or created). -/
+theorem vec_names_shape : Facts.c16VecNames =
+    ["Gauge:", "m.Gauges[m.resolveMetricName(metric)]",
+     "RegisterGauge:", "metricName := m.resolveMetricName(metric)", "m.Gauges[metricName]", "Name: metricName",
+     "m.Gauges[metricName]",
+     "Counter:", "m.Counters[m.resolveMetricName(metric)]",
+     "RegisterCounter:", "metricName := m.resolveMetricName(metric)", "m.Counters[metricName]", "Name: metricName",
+     "m.Counters[metricName]",
+     "Histogram:", "m.Histograms[m.resolveMetricName(metric)]",
+     "RegisterHistogram:", "metricName := m.resolveMetricName(metric)", "m.Histograms[metricName]",
+     "Name: metricName", "m.Histograms[metricName]"] := by
+  decide
+
+/-- Witness about the UNREPAIRED vec cache (lookup and store under the written name, registration under
+the resolved one): `{PREFIX}x` (1) then `x` (2) — the second spelling misses the cache, registers `x`
+again, `MustRegister` panics, the operation is dropped; and the other way round. Corpus case 20. -/
+theorem raw_vec_key_unrepaired_witness : let r : Nat → Nat := fun n => if n = 1 then 2 else n
+    (getOrCreate id r id {} 1 .gauge).bind (fun v => getOrCreate id r id v 2 .gauge) = none ∧
+    (getOrCreate id r id {} 2 .gauge).bind (fun v => getOrCreate id r id v 1 .gauge) = none ∧
+    ((getOrCreateResolved r {} 1 .gauge).bind (fun v => getOrCreateResolved r v 2 .gauge)).isSome = true := by
+  decide
+
+end names
+
+/-- Tie T1 for what the reader writes to: between `Decode` and `append` the loop of
+`MetricOperationsFromReader` assigns `Action` and `Value` only (the two shortcut transforms, `normalize`
+/ `HookOutput.shortcut`); name, group, labels and buckets reach `SendBatch` exactly as decoded. -/
+theorem reader_writes_shape : Facts.c16ReaderWrites =
+    ["err", "dec.Decode(&metricOperation)", "metricOperation.Action", "metricOperation.Value",
+     "metricOperation.Action", "metricOperation.Value", "operations"] := by
+  decide
+
+/-- The reader's transforms keep the identity of an operation — which metric, which group (two groups
+that differ in anything, a blank included, stay two groups; a non-empty group stays non-empty), which
+series — in the typed model and in the byte-level model of the file. -/
+theorem reader_keeps_identity (op : Op) (m : HookOutput.MetricOp) :
+    (normalize op).name = op.name ∧ (normalize op).group = op.group ∧ (normalize op).labels = op.labels
+    ∧ (normalize op).buckets = op.buckets
+    ∧ (HookOutput.shortcut m).name = m.name ∧ (HookOutput.shortcut m).group = m.group := by
+  refine ⟨?_, ?_, ?_, ?_, ?_, ?_⟩ <;>
+    (simp only [normalize, HookOutput.shortcut]; split <;> split <;> rfl)
+
+/-- non-vacuity: the all-blank group `" "` is a group for the byte-level reader: its `expire` is a valid
+operation, a file of it is accepted, and the decoded group is the blank itself. -/
+example : HookOutput.metricsOk "{\"group\":\" \",\"action\":\"expire\"}".toList = true ∧
+    (HookOutput.fromReader "{\"group\":\" \",\"action\":\"expire\"}".toList).map (·.map (·.group))
+      = some [[' ']] := by decide
 
 end ShellOp.Metrics.C16
